@@ -19,7 +19,7 @@ FUNCTIONS = ["debian._deb822_repro.tokens.tokenize_deb822_file", "debian._deb822
              "debian._deb822_repro.parsing.Deb822Element.convert_to_text"]
 STUBS = []
 ASSUMPTIONS = ["no newline inside a line; in the terminated forms the (unterminated) last line is non-empty; in the none-terminated form empty strings are blank lines"]
-OUTSIDE = ["documents of more than 3 lines", "more than 3 symbolic characters per line (engine A)", "bytes lines"]
+OUTSIDE = ["documents of more than 3 lines other than the run documents (two runs of up to 11 equal lines) and the six templates", "more than 3 symbolic characters per line (engine A)", "bytes lines"]
 
 PREFIX = {"F": "", "V": "Ab:", "C": " ", "T": "\t", "H": "#", "W": ""}
 
@@ -90,6 +90,81 @@ TEMPLATES = [
     ["garbage\n", " @\n", "A: b\n", "\n", "\n", "@\n"],
     ["A: b\n", "# @\n", " c@\n", "\n", "@: d\n"],
 ]
+
+
+RUN_LINES = {"blank": "\n", "space": " \n", "tab": "\t\n", "comment": "# c\n", "cont": " x\n", "junk": "junk\n", "field": "A: b\n"}
+RUN_HEADS = [[], ["A: b\n"], ["A: b\n", " c\n"], ["# h\n"]]
+
+
+def h_runs(params, n: int, m: int, x: str):
+    """Runs of n + m lines of two classes (run lengths symbolic, 0..hi: the tokenizer buffers look-ahead in
+    chunks of 5) after a concrete head, closed by a symbolic last line that may be unterminated."""
+    hi = params["hi"]
+    assume(0 <= n <= hi)
+    assume(0 <= m <= hi)
+    assume(len(x) <= params["len"])
+    assume(line_ok(params["tail"], x))
+    lines = list(RUN_HEADS[params["head"]])
+    i = 0
+    while i < n:
+        lines.append(RUN_LINES[params["r1"]])
+        i += 1
+    i = 0
+    while i < m:
+        lines.append(RUN_LINES[params["r2"]])
+        i += 1
+    last = PREFIX[params["tail"]] + x
+    if params["mode"] == "last":
+        assume(len(last) > 0)
+        lines.append(last)
+    else:
+        lines.append(last + "\n")
+    want = "".join(lines)
+    toks = list(tokenize_deb822_file(list(lines)))
+    require("".join(t.text for t in toks) == want, "token texts do not concatenate to the input", lines=lines)
+    doc = parse_deb822_file(list(lines), accept_files_with_error_tokens=True, accept_files_with_duplicated_fields=True)
+    require(doc.dump() == want, "dump() differs from the input", lines=lines, got=doc.dump(), want=want)
+    if n + m >= 7:
+        reach(params, "run>=7")
+
+
+# calls that end early (rejected input, abandoned token stream) before the call under test
+ABORTED = [
+    ("inconsistent-endings", ["# Header\n", "Source: foo", "Section: devel\n"]),
+    ("inconsistent-endings-2", ["A: b\n", " c", "\n"]),
+    ("error-tokens-rejected", ["junk\n", "A: b\n"]),
+    ("duplicates-rejected", ["A: b\n", "A: c\n"]),
+    ("abandoned-stream", ["# c\n", "A: b\n", " c\n", "junk\n", "B: d\n"]),
+]
+
+
+def h_after_abort(params, x: str):
+    """State left behind by an earlier call that ended early must not leak into the next parse."""
+    name, bad = ABORTED[params["prev"]]
+    if name == "abandoned-stream":
+        it = tokenize_deb822_file(list(bad))
+        k = 0
+        for _t in it:
+            k += 1
+            if k >= params.get("take", 2):
+                break
+        it2 = iter(parse_deb822_file(list(bad), accept_files_with_error_tokens=True).iter_tokens())
+        next(it2)
+    else:
+        try:
+            parse_deb822_file(list(bad))
+        except Exception:   # noqa: BLE001  (rejection of the earlier input is not the subject here)
+            pass
+    reach(params, "aborted")
+    tpl = TEMPLATES[params["tpl"]]
+    assume(len(x) == params["len"])
+    assume(line_ok("F", x))
+    lines = [l.replace("@", x) for l in tpl]
+    want = "".join(lines)
+    toks = list(tokenize_deb822_file(list(lines)))
+    require("".join(t.text for t in toks) == want, "token texts do not concatenate to the input (after an aborted call)", previous=bad, lines=lines)
+    doc = parse_deb822_file(list(lines), accept_files_with_error_tokens=True, accept_files_with_duplicated_fields=True)
+    require(doc.dump() == want, "dump() differs from the input (after an aborted call)", previous=bad, lines=lines, got=doc.dump(), want=want)
 
 
 # ------------------------------------------------------------------ engine B
@@ -172,4 +247,21 @@ def partitions(tier, seed):
             for mode in ("all", "last"):
                 P.append(dict(name="tpl/%d/len%d/%s" % (t, ln, mode), harness="h_template", params=dict(tpl=t, len=ln, mode=mode),
                               budget=45 if q else 900, reach=[], bounds="template %d with a hole of %d arbitrary chars" % (t, ln)))
+    runs = [("blank", "space", "W"), ("space", "blank", "W"), ("blank", "tab", "F"), ("comment", "blank", "W"), ("cont", "comment", "C"),
+            ("junk", "blank", "F"), ("field", "blank", "W"), ("comment", "cont", "H")]
+    for ri, (r1, r2, tail) in enumerate(runs):
+        for mode in ("all", "last"):
+            head = (ri + (0 if mode == "all" else 1)) % len(RUN_HEADS)
+            if q and (ri + (mode == "last")) % 2 and r1 not in ("blank", "space"):
+                continue
+            P.append(dict(name="runs/%s-%s-%s/%s" % (r1, r2, tail, mode), harness="h_runs",
+                          params=dict(r1=r1, r2=r2, tail=tail, mode=mode, head=head, hi=6 if q else 11, len=1 if q else 2),
+                          budget=60 if q else 900, reach=["run>=7"],
+                          bounds="head %d, then 0..%d '%s' lines, then 0..%d '%s' lines (both counts symbolic), then a last line of kind %s with <= %d symbolic chars, newline mode %s"
+                                 % (head, 6 if q else 11, r1, 6 if q else 11, r2, tail, 1 if q else 2, mode)))
+    for pi in range(len(ABORTED)):
+        for t in ((0, 3) if q else range(len(TEMPLATES))):
+            P.append(dict(name="after-abort/%s/tpl%d" % (ABORTED[pi][0], t), harness="h_after_abort", params=dict(prev=pi, tpl=t, len=1, take=2),
+                          budget=40 if q else 300, reach=["aborted"],
+                          bounds="an earlier call on %r ends early, then template %d with a hole of 1 arbitrary char" % (ABORTED[pi][1], t)))
     return P
